@@ -13,6 +13,9 @@ RULE = ("cases = exhaustive universe (<=3 rows, every grouping of rows into unit
         "through ShapleyImportance('neighbor').fit(...).score(...) with an injected distance callable and table utility; "
         "plus the real accuracy utility with the default minkowski distance; non-trivial = at least two units receive "
         "different scores; distinct = distinct JSON of the case")
+# the exhaustive small universe (<= 3 rows, every order / labelling / grouping) is by nature mostly made of cases in which all
+# units score alike; the share of non-trivial cases is reported in the evidence
+ALLOW_TRIVIAL = True
 EXHAUSTIVE = {"quick": True, "thorough": True}
 SHARD = 120
 JOBS = 12
